@@ -98,7 +98,11 @@ func ValidateUnixEpochTimestamp(b []byte, now time.Time) error {
 	tsEpoch := int64(binary.BigEndian.Uint64(b))
 	nowEpoch := now.Unix()
 	diff := tsEpoch - nowEpoch
-	if diff < -MaxEpochDiff || diff > MaxEpochDiff {
+	// Timestamps have whole-second resolution while salts are kept for exactly
+	// ReplayWindowDuration. A timestamp that is MaxEpochDiff whole seconds old may be up to
+	// MaxEpochDiff+1 seconds old in real time, which would outlive its salt in the pool.
+	// Treat it as expired, so that a replay is always covered by the salt pool.
+	if diff <= -MaxEpochDiff || diff > MaxEpochDiff {
 		return &HeaderError[int64]{ErrBadTimestamp, nowEpoch, tsEpoch}
 	}
 	return nil
